@@ -80,4 +80,9 @@ CONFIG = {
         "thorough": {'checks': 300000, 'shards': 14, 'timeout': 3600, 'shrinktime': '60s'},
         "assumptions": ["every block that uses 'yield content' has default content and is always yielded with content (what a contentless invocation renders inside another pending content is not specified)", 'all definitions of one block name share parameter names and give every parameter a default', 'one definition per block name and file'],
     },
+    'C09': {
+        "quick": {'checks': 8000, 'shards': 4, 'timeout': 900},
+        "thorough": {'checks': 300000, 'shards': 14, 'timeout': 3600, 'shrinktime': '60s'},
+        "assumptions": ['a return inside a block body is not generated', "'return nil' is generated only as the sole return of a template", 'a range stops after an iteration that executed a return (pinned by the existing suite)'],
+    },
 }
